@@ -43,6 +43,9 @@ def run(ctx, R, tier):
     from .c08 import drops
     drops(F, R)
     # 'multiplied by the volume ...': the volume in use is the parameter's, not a cached copy of it
+    # 'a paused branch contributes exact silence': a pause the track reads reaches its state machine in every state
+    from . import c03
+    c03.commands_reach_manager(F, R, rule='B.C02.cmd-applied', owners=c03.TRACK_OWNERS, floor=2)
     from .c06 import in_chunk_time
     in_chunk_time(F, R, rule='B.C02.in-chunk')
     from .c06 import param_cache
